@@ -23,15 +23,20 @@ from lib.common import enc_list, dec_list
 DBS = {11: "DB1", 12: "DB2"}
 SCHEMAS = {21: "S1", 22: "S2"}
 OBJS = {31: "T1", 32: "T2", 33: "T3", 34: "T4", 35: "T5"}
+PKOBJS = {36: "T6", 37: "T7"}   # tables declared with a PRIMARY KEY live under their own names: only CREATE [OR REPLACE], DROP, COMMENT, ADD COLUMN touch them
 COLS = {41: "A", 42: "B", 43: "C", 44: "D", 45: "E", 46: "F"}
-NAME = {**DBS, **SCHEMAS, **OBJS, **COLS}
+NAME = {**DBS, **SCHEMAS, **OBJS, **PKOBJS, **COLS}
 ID = {v: k for k, v in NAME.items()}
 DEFAULT_LEN = 16777216
 KEY_ACCOUNT = "C09/account-scope-lists-internal-objects"
 KEY_INFO_TABLES = "C09/information-schema-tables-lists-internal-and-other-databases"
 KEY_CROSS_DB = "C09/describe-other-database-loses-lengths"
+KEY_INE = "C09/create-if-not-exists-overwrites-metadata"
+KEY_PK_SCOPE = "C09/show-primary-keys-account-database-scope-unsupported"
+KEY_PK_TABLE = "C09/show-primary-keys-in-table-ignores-schema"
+KEY_PK_BARE = "C09/show-primary-keys-bare-scope-empty"
 
-TYPES = ["i", "i", "n10.2", "n5.0", "f", "b", "d", "z", "t10", "t3", "t255", "t100", f"t{DEFAULT_LEN}", f"t{DEFAULT_LEN}"]
+TYPES = ["i", "i", "n10.2", "n5.0", "n9.0", "n7.0", "f", "b", "d", "z", "t10", "t3", "t255", "t100", f"t{DEFAULT_LEN}", f"t{DEFAULT_LEN}"]
 
 
 def ty_sql(rnd, t: str) -> str:
@@ -39,6 +44,8 @@ def ty_sql(rnd, t: str) -> str:
         return rnd.choice(["int", "integer", "bigint"])
     if t[0] == "n":
         p, s = t[1:].split(".")
+        if s == "0":   # precision only: NUMBER(p) = DECIMAL(p) = NUMERIC(p) = NUMBER(p,0)
+            return rnd.choice([f"number({p},0)", f"number({p})", f"decimal({p})", f"numeric({p})"])
         return f"number({p},{s})"
     if t[0] == "t":
         n = int(t[1:])
@@ -51,6 +58,8 @@ def cast_sql(rnd, t: str) -> str:
         return rnd.choice(["1::int", "cast(1 as integer)", "2::bigint"])
     if t[0] == "n":
         p, s = t[1:].split(".")
+        if s == "0":
+            return rnd.choice([f"1::number({p},0)", f"1::number({p})", f"cast(1 as decimal({p}))", f"1::numeric({p})"])
         return f"1::number({p},{s})"
     if t[0] == "t":
         n = int(t[1:])
@@ -91,6 +100,8 @@ class Gen:
         self.rnd = rnd
         self.shadow: dict = {}   # key -> (is_view, [col ids])  — rough, only to bias choices
         self.home = {d: 21 for d in DBS}   # current schema of the connection of each database (changed by USE SCHEMA steps)
+        self.sized: dict = {}              # key -> sequence number, tables created with a sized VARCHAR
+        self.pk: dict = {}                 # live tables with a PRIMARY KEY: key -> [col ids]
         self.commented: dict = {}          # key -> sequence number of its latest COMMENT (observed again after every no-op'd statement)
 
     def fq(self, k):
@@ -98,6 +109,7 @@ class Gen:
 
     def noise_touch(self, d):
         recent = sorted(self.commented, key=lambda k: self.commented[k])[-3:]   # the three most recently commented keys
+        recent += sorted(self.sized, key=lambda k: self.sized[k])[-2:]          # and the two most recent tables with sized VARCHARs
         return sorted(set(recent) | {(k[0], self.home[k[0]], k[2]) for k in recent} | {(d, self.home[d], k[2]) for k in recent})
 
     def pick_key(self, live=None, view=None):
@@ -121,7 +133,34 @@ class Gen:
 
     def op(self, force=None) -> dict:
         r = self.rnd
-        kind = force or r.choices(["ct", "cs", "cl", "cv", "ac", "dc", "rc", "rt", "sc", "dt", "dv", "nop", "use"], [18, 7, 6, 7, 9, 6, 8, 7, 12, 12, 4, 12, 4])[0]
+        kind = force or r.choices(["ct", "cs", "cl", "cv", "ac", "dc", "rc", "rt", "sc", "dt", "dv", "nop", "use", "pk"], [18, 7, 6, 7, 9, 6, 8, 7, 12, 12, 4, 14, 4, 7])[0]
+        if kind == "pk":     # tables with a PRIMARY KEY (own name pool)
+            sub = r.choices(["create", "drop", "comment", "add"], [6, 2, 2, 2])[0] if self.pk else "create"
+            if sub == "create":
+                k = (r.choice([11, 11, 12]), r.choice(list(SCHEMAS)), r.choice(list(PKOBJS)))
+                cols = self.new_cols(r.randint(1, 3))
+                pkc = cols[0][0]
+                rep_ = k in self.pk or r.random() < 0.2
+                comment = r.randint(1, 9) if r.random() < 0.3 else None
+                coldefs = [f"{NAME[c]} {ty_sql(r, t)}" + (" primary key" if c == pkc else "") for c, t in cols]
+                r.shuffle(coldefs) if False else None
+                sql = f"create {'or replace ' if rep_ else ''}table {self.fq(k)} ({', '.join(coldefs)})" + (f" comment = 'c{comment}'" if comment else "")
+                self.pk[k] = [c for c, _ in cols]
+                if comment:
+                    self.commented[k] = len(self.commented) + max(self.commented.values(), default=0) + 1
+                return {"op": f"ct,{key_str(k)},{'/'.join(f'{c}:{t}' for c, t in cols)},{comment or '-'},{int(rep_)},{pkc}", "sql": sql, "db": k[0], "touch": [k]}
+            k = r.choice(sorted(self.pk))
+            if sub == "drop":
+                self.pk.pop(k)
+                return {"op": f"dt,{key_str(k)}", "sql": f"drop table {self.fq(k)}", "db": k[0], "touch": [k]}
+            if sub == "comment":
+                c = r.randint(1, 9)
+                self.commented[k] = len(self.commented) + max(self.commented.values(), default=0) + 1
+                return {"op": f"sc,{key_str(k)},{c}", "sql": f"comment on table {self.fq(k)} is 'c{c}'", "db": k[0], "touch": [k]}
+            c, t = r.choice(list(COLS)), r.choice(TYPES)
+            if c not in self.pk[k]:
+                self.pk[k].append(c)
+            return {"op": f"ac,{key_str(k)},{c}:{t}", "sql": f"alter table {self.fq(k)} add column {NAME[c]} {ty_sql(r, t)}", "db": k[0], "touch": [k]}
         if kind == "use":    # USE SCHEMA: later one-part names of that connection refer to the new schema; no metadata effect
             d = r.choice(list(DBS))
             sc = r.choice(list(SCHEMAS))
@@ -132,6 +171,11 @@ class Gen:
             live = [k for k, (v, _) in self.shadow.items() if not v and k[0] == d]
             t = self.fq(r.choice(sorted(live))) if live and r.random() < 0.8 else r.choice(list(OBJS.values()))
             self.nvar = getattr(self, "nvar", 0) + 1
+            if r.random() < 0.25:   # the bootstrap of a database's side tables re-runs: nothing recorded may be lost
+                D = NAME[r.choice(list(DBS))]
+                if r.random() < 0.6:
+                    return {"op": "nop", "sql": f"create database if not exists {D}", "db": d, "touch": self.noise_touch(d)}
+                return {"op": "nop", "sql": f"-- connect(database={D!r}, schema='S1')", "connect": [D, "S1"], "db": d, "touch": self.noise_touch(d)}
             sql = r.choice([f"set v{self.nvar % 3} = {self.nvar}", f"alter table {t} set tag tg{self.nvar % 2} = 'x'", f"alter table {t} modify column A set tag tg1 = 'y'",
                             f"create tag tg{self.nvar}", f"alter table {t} cluster by (A)", f"alter table {t} alter A comment 'col comment'"])
             return {"op": "nop", "sql": sql, "db": d, "touch": self.noise_touch(d)}
@@ -148,7 +192,9 @@ class Gen:
             if comment:
                 self.commented[k] = len(self.commented) + max(self.commented.values(), default=0) + 1
             self.shadow[k] = (False, [c for c, _ in cols])
-            return {"op": f"ct,{key_str(k)},{'/'.join(f'{c}:{t}' for c, t in cols)},{comment or '-'},{int(rep)}", "sql": sql, "db": k[0], "touch": [k]}
+            if any(t[0] == "t" and t != f"t{DEFAULT_LEN}" for _, t in cols):
+                self.sized[k] = len(self.sized) + max(self.sized.values(), default=0) + 1
+            return {"op": f"ct,{key_str(k)},{'/'.join(f'{c}:{t}' for c, t in cols)},{comment or '-'},{int(rep)},-", "sql": sql, "db": k[0], "touch": [k]}
         if kind in ("cs", "cl", "cv"):
             src = self.pick_key(live=True, view=False)
             k = self.pick_key(live=False) if r.random() < 0.8 else self.pick_key()
@@ -220,18 +266,18 @@ def corpus() -> list[list[dict]]:
     k1, k2, k3 = (11, 21, 31), (11, 21, 32), (11, 22, 31)
     return [
         # stale comment after DROP + re-CREATE; OR REPLACE without comment; same name in another schema is independent
-        [S("ct,11.21.31,41:t10/42:i,3,0", "create table t1 (a varchar(10), b int) comment = 'c3'", [k1]), S("dt,11.21.31", "drop table t1", [k1]),
-         S("ct,11.22.31,41:t4,-,0", "create table s2.t1 (a varchar(4))", [k3]),
-         S("ct,11.21.31,41:t5,-,0", "create table t1 (a varchar(5))", [k1]), S("ct,11.21.31,43:d,5,1", "create or replace table t1 (c date) comment = 'c5'", [k1]),
-         S("ct,11.21.31,43:d,-,1", "create or replace table db1.s1.t1 (c date)", [k1])],
+        [S("ct,11.21.31,41:t10/42:i,3,0,-", "create table t1 (a varchar(10), b int) comment = 'c3'", [k1]), S("dt,11.21.31", "drop table t1", [k1]),
+         S("ct,11.22.31,41:t4,-,0,-", "create table s2.t1 (a varchar(4))", [k3]),
+         S("ct,11.21.31,41:t5,-,0,-", "create table t1 (a varchar(5))", [k1]), S("ct,11.21.31,43:d,5,1,-", "create or replace table t1 (c date) comment = 'c5'", [k1]),
+         S("ct,11.21.31,43:d,-,1,-", "create or replace table db1.s1.t1 (c date)", [k1])],
         # lengths lost on rename column / rename table / ctas / clone / view; add column keeps its length
-        [S("ct,11.21.31,41:t10/42:n10.2,4,0", "create table t1 (a varchar(10), b number(10,2)) comment = 'c4'", [k1]),
+        [S("ct,11.21.31,41:t10/42:n10.2,4,0,-", "create table t1 (a varchar(10), b number(10,2)) comment = 'c4'", [k1]),
          S("ac,11.21.31,45:t7", "alter table t1 add column e varchar(7)", [k1]), S("rc,11.21.31,41,43", "alter table t1 rename column a to c", [k1]),
          S("cs,11.21.32,11.21.31,45/42,0", "create table t2 as select e, b from t1", [k2]), S("cl,11.21.33,11.21.31,0", "create table t3 clone t1", [(11, 21, 33)]),
          S("cv,11.21.34,11.21.31,45,0", "create view t4 as select e from t1", [(11, 21, 34)]), S("rt,11.21.31,35", "alter table t1 rename to t5", [k1, (11, 21, 35)]),
          S("rc,11.21.35,42,46", "alter table t5 rename column b to f", [(11, 21, 35)]), S("dc,11.21.35,46", "alter table t5 drop column f", [(11, 21, 35)])],
         # comment on a missing table is recorded and shows up on a later table of that name; other database
-        [S("sc,12.21.31,6", "comment on table t1 is 'c6'", [(12, 21, 31)], db=12), S("ct,12.21.31,41:i,-,0", "create table t1 (a int)", [(12, 21, 31)], db=12),
+        [S("sc,12.21.31,6", "comment on table t1 is 'c6'", [(12, 21, 31)], db=12), S("ct,12.21.31,41:i,-,0,-", "create table t1 (a int)", [(12, 21, 31)], db=12),
          S("sc,12.21.31,7", "alter table db2.s1.t1 set comment = 'c7'", [(12, 21, 31)], db=12), S("dt,12.21.31", "drop table t1", [(12, 21, 31)], db=12)],
     ]
 
@@ -328,7 +374,10 @@ def real_history(ops: list[dict]) -> list[dict]:
         for i, op in enumerate(ops):
             conn = conns[op["db"]]
             try:
-                conn.cursor().execute(op["sql"])
+                if "connect" in op:
+                    snowflake.connector.connect(database=op["connect"][0], schema=op["connect"][1])
+                else:
+                    conn.cursor().execute(op["sql"])
                 ok = "1"
             except E.ProgrammingError as e:
                 ok = f"0:{e.errno}"
@@ -372,6 +421,24 @@ def real_history(ops: list[dict]) -> list[dict]:
                             cur.execute(form)
                             spell[f"[from {D}] " + form] = sorted(f"{x[3]}.{x[4]}.{x[1]}:{'v' if x[2] == 'VIEW' else 't'}" for x in cur.fetchall())
                 obs["show_spellings"] = spell
+                # SHOW PRIMARY KEYS in every scope spelling, from the connection of the keys' own database
+                keys = {}
+                for d in DBS:
+                    D = NAME[d]
+                    forms = ["show primary keys", "show primary keys in account", f"show primary keys in database {D}"]
+                    for sc in SCHEMAS:
+                        S = NAME[sc]
+                        forms += [f"show primary keys in schema {S}", f"show primary keys in schema {D}.{S}"]
+                        if sc == 21:
+                            forms += [f"show terse primary keys in schema {S}", f"show primary keys in {D}.{S}", f"show primary keys in table {D}.{S}.T6"]
+                    for form in forms:
+                        cur = conns[d].cursor()
+                        try:
+                            cur.execute(form)
+                            keys[f"[{D}] {form}"] = sorted(f"{x[1]}.{x[2]}.{x[3]}:{x[4]}" for x in cur.fetchall())
+                        except Exception as e:
+                            keys[f"[{D}] {form}"] = "err:" + type(e).__name__
+                obs["show_keys"] = keys
                 cur = conns[11].cursor()
                 cur.execute("show tables")
                 obs["show_account"] = sorted(f"{x[3]}.{x[4]}.{x[1]}" for x in cur.fetchall())
@@ -400,10 +467,25 @@ def real_cross_db() -> dict:
         return out
 
 
+def real_if_not_exists() -> dict:
+    """CREATE TABLE IF NOT EXISTS on an existing table creates nothing; the metadata of the existing table must stay"""
+    import fakesnow
+    import snowflake.connector
+    with fakesnow.patch():
+        c = snowflake.connector.connect(database="DB1", schema="S1")
+        cur = c.cursor()
+        cur.execute("create table t1 (a varchar(10)) comment = 'c1'")
+        cur.execute("create table if not exists t1 (a varchar(3)) comment = 'c2'")
+        cur.execute("describe table t1")
+        ty = [_ty_describe(x[1]) for x in cur.fetchall()]
+        cur.execute("select comment from information_schema.tables where table_schema = 'S1' and table_name = 'T1'")
+        return {"type": ty, "comment": [x[0] for x in cur.fetchall()]}
+
+
 def _worker(shard):
     import fakesnow
     assert common.REPO in __import__("pathlib").Path(fakesnow.__file__).resolve().parents, fakesnow.__file__
-    return [real_cross_db() if h == "cross-db" else real_history(h) for h in shard]
+    return [real_cross_db() if h == "cross-db" else real_if_not_exists() if h == "if-not-exists" else real_history(h) for h in shard]
 
 
 # ----------------------------------------------------------------------------------------------
@@ -415,7 +497,8 @@ def _parse_objects(s: str) -> dict:
     out = {}
     for o in [x for x in s.split(",") if x]:
         key, kind, sc, ic, cols = o.split(":", 4)
-        out[key] = {"kind": kind, "sc": sc, "ic": ic, "cols": [tuple(c.split(":")) for c in cols.split("/") if c]}
+        kind, _, pk = kind.partition("#")
+        out[key] = {"kind": kind, "pk": pk or None, "sc": sc, "ic": ic, "cols": [tuple(c.split(":")) for c in cols.split("/") if c]}
     return out
 
 
@@ -483,8 +566,10 @@ def _check_history(chk, ops, real, reply) -> None:
                     chk.violation(f"{where}: object {key} cannot be described: {o}", {**case, "step": i}, broken="C09 surfaces")
                     return
                 names = [c[0] for c in m["cols"]]
-                spec = {"describe": [f"{c[0]}:{c[1]}:COLUMN:Y" for c in m["cols"]], "info": [f"{c[0]}:{c[1]}" for c in m["cols"]], "comment": m["sc"]}
-                impl = {"describe": [f"{c[0]}:{c[2]}:COLUMN:Y" for c in m["cols"]],
+        # a PRIMARY KEY column is NOT NULL
+                nn = lambda c: "N" if c[0] == m["pk"] else "Y"  # noqa: E731
+                spec = {"describe": [f"{c[0]}:{c[1]}:COLUMN:{nn(c)}" for c in m["cols"]], "info": [f"{c[0]}:{c[1]}" for c in m["cols"]], "comment": m["sc"]}
+                impl = {"describe": [f"{c[0]}:{c[2]}:COLUMN:{nn(c)}" for c in m["cols"]],
                         "info": [f"{c[0]}:{('t' + c[3]) if c[1][0] == 't' else c[1]}" for c in m["cols"]], "comment": m["ic"]}
                 got = {"describe": o["describe"], "info": o["info"], "comment": comments.get(n, "?")}
                 star_want = [f"{c[0]}:{_base(c[1])}" for c in m["cols"]]
@@ -534,6 +619,37 @@ def _check_history(chk, ops, real, reply) -> None:
                     chk.violation(f"`{f}`" + (f" issued from a connection in {home}" if home else " issued from a connection of the other database")
                                   + f" lists {got}, the live catalog has {want_sp}", {**case, "step": i}, broken="C09_listing (SHOW scope spellings)")
                     return
+            allpk = sorted(".".join(NAME[int(x)] for x in k.split(".")) + ":" + NAME[int(model[k]["pk"])] for k in allkeys if model[k].get("pk"))
+            for form, got in r.get("show_keys", {}).items():
+                D = form[1:4]
+                f = form[6:]
+                toks = f.split()
+                chk.count("show-primary-keys-forms")
+                if toks[-1] == "keys":                      # no scope: the current database
+                    want_k, key = [x for x in allpk if x.startswith(D + ".")], None
+                elif "account" in toks:
+                    want_k, key = allpk, KEY_PK_SCOPE
+                elif "database" in toks:
+                    want_k, key = [x for x in allpk if x.startswith(D + ".")], KEY_PK_SCOPE
+                elif "table" in toks:
+                    want_k, key = [x for x in allpk if x.startswith(toks[-1] + ":")], KEY_PK_TABLE
+                elif "schema" in toks:
+                    scope = toks[-1] if "." in toks[-1] else f"{D}.{toks[-1]}"
+                    want_k, key = [x for x in allpk if x.startswith(scope + ".")], None
+                else:                                        # bare `IN db.schema`
+                    want_k, key = [x for x in allpk if x.startswith(toks[-1] + ".")], KEY_PK_BARE
+                if got == want_k:
+                    continue
+                what = f"`{f}` issued from a connection in {D} lists {got}, the declared keys of the live catalog in that scope are {want_k}"
+                if key == KEY_PK_SCOPE and got == "err:NotImplementedError":
+                    chk.finding(key, what, {**case, "step": i})
+                elif key == KEY_PK_TABLE and isinstance(got, list) and got == [x for x in allpk if x.startswith(D + ".") and x.split(":")[0].endswith("." + toks[-1].split(".")[-1])]:
+                    chk.finding(key, what, {**case, "step": i})
+                elif key == KEY_PK_BARE and got == []:
+                    chk.finding(key, what, {**case, "step": i})
+                else:
+                    chk.violation(what, {**case, "step": i}, broken="C09_keys_from_catalog (SHOW PRIMARY KEYS vs the live catalog)")
+                    return
             want = sorted(".".join(NAME[int(x)] for x in k.split(".")) for k in allkeys if model[k]["kind"] == "t")
             if r["show_account"] != want:
                 extra = [x for x in r["show_account"] if x not in want]
@@ -565,9 +681,21 @@ def _check_cross(chk, real) -> None:
         chk.violation(f"describe table db2.s1.t1 from a connection in DB1 shows {real.get('other')}", {"kind": "cross-db"}, broken="C09_surfaces")
 
 
+def _check_ine(chk, real) -> None:
+    chk.case(("if-not-exists",), nontrivial=False)
+    if real == {"type": ["t10"], "comment": ["c1"]}:
+        return
+    if real == {"type": ["t3"], "comment": ["c2"]}:
+        chk.finding(KEY_INE, f"`create table if not exists t1 (a varchar(3)) comment = 'c2'` on the existing t1 (a varchar(10)) comment 'c1': DESCRIBE now {real['type']}, comment {real['comment']}",
+                    {"kind": "if-not-exists"})
+    else:
+        chk.violation(f"CREATE TABLE IF NOT EXISTS on an existing table: DESCRIBE {real.get('type')}, comment {real.get('comment')} (declared: VARCHAR(10), 'c1')", {"kind": "if-not-exists"},
+                      broken="C09_surfaces (metadata of an existing table after CREATE … IF NOT EXISTS)")
+
+
 def _histories(chk) -> list:
     rnd = random.Random(chk.seed)
-    n = 48 if chk.tier == "quick" else 300
+    n = 40 if chk.tier == "quick" else 250
     hs = corpus()
     for _ in range(n):
         hs.append(gen_history(rnd, rnd.randint(8, 30)))
@@ -579,14 +707,16 @@ def run(chk) -> None:
     chk.rule = ("DDL histories of 8-36 statements (11 statement kinds, 3 qualification levels, 14 column types) over 2 databases x 2 schemas x 5 object "
                 "names x 6 column names; after every statement every surface of the touched schema(s) is read (listings + per object DESCRIBE, "
                 "information_schema.columns, description of SELECT *), at the end all schemas, database and account scope.  non-trivial = history with >= 3 statements")
-    items = ["cross-db"] + hs
+    items = ["cross-db", "if-not-exists"] + hs
     shards = common.chunks(items, 16)
     reals = common.shard_map(_worker, shards)
     for shard, rs in zip(shards, reals):
-        hist = [(h, r) for h, r in zip(shard, rs) if h != "cross-db"]
+        hist = [(h, r) for h, r in zip(shard, rs) if not isinstance(h, str)]
         for h, r in zip(shard, rs):
             if h == "cross-db":
                 _check_cross(chk, r)
+            elif h == "if-not-exists":
+                _check_ine(chk, r)
         replies = common.batch(["meta\thist\t" + enc_list([o["op"] for o in h]) for h, _ in hist]) if hist else []
         for (h, r), reply in zip(hist, replies):
             _check_history(chk, h, r, reply)
@@ -603,6 +733,9 @@ def run(chk) -> None:
 
 
 def replay(chk, case) -> None:
+    if case.get("kind") == "if-not-exists":
+        _check_ine(chk, _worker([["if-not-exists"]][0])[0])
+        return
     if case.get("kind") == "cross-db":
         _check_cross(chk, _worker([["cross-db"]][0])[0])
         return
